@@ -168,7 +168,20 @@ def r3_arclength(repo: Repo, rep):
                 rep.undecided(R, su.site(), su.fq, "perimeter walk called", "not found")
                 continue
             c = tc[0]
-            args = {prm: a for prm, a in zip(params, c.args)}
+            flat = []
+            for a in c.args:
+                if isinstance(a, ast.Starred):
+                    # f(*dirs, *lengths, ..): the unpacked value is a tuple display once the helper that built it is expanded
+                    v = a.value if isinstance(a.value, (ast.Tuple, ast.List)) else expand_helpers(repo, ci, a.value, domain_cls=dci)
+                    if isinstance(v, ast.Subscript) and isinstance(v.value, (ast.Tuple, ast.List)) and isinstance(v.slice, ast.Slice) \
+                            and all(x is None or isinstance(x, ast.Constant) for x in (v.slice.lower, v.slice.upper, v.slice.step)):
+                        sl = slice(*(None if x is None else x.value for x in (v.slice.lower, v.slice.upper, v.slice.step)))
+                        v = ast.Tuple(elts=list(v.value.elts)[sl], ctx=ast.Load())
+                    if isinstance(v, (ast.Tuple, ast.List)):
+                        flat.extend(v.elts)
+                        continue
+                flat.append(a)
+            args = {prm: a for prm, a in zip(params, flat)}
             ev = SymEval(shape_atom)
             try:
                 okn = True
